@@ -8,7 +8,9 @@
                  _Image._get_stacked_volume_geometry / get_volume (frame placement),
                  Image.get_volume_geometry / _get_volume_geometry and
                  seg/sop.py Segmentation.get_volume_geometry (defaults + forwarding of the
-                 allow_missing_positions / allow_duplicate_positions declarations)
+                 allow_missing_positions / allow_duplicate_positions declarations),
+                 _Image._get_shared_frame_value (THE orientation / pixel spacing / spacing hint of
+                 the frames of a frame table filled from shared or per-frame functional groups)
    Arithmetic is exact over Q; the tolerances are rational constants/parameters.
    np.unique(axis=0) = lexicographically sorted distinct rows; np.argsort = stable
    insertion sort; np.round = round-half-even.  No proofs in this file. *)
@@ -438,3 +440,88 @@ Definition answer_query chans outch ps rowc colc hint (seg : bool) (q : mf_query
   end.
 Definition run_mf_history chans outch ps rowc colc hint seg (qs : list mf_query) : val :=
   VL (map (answer_query chans outch ps rowc colc hint seg) qs).
+
+(* ---------- per-frame functional groups: _Image._get_shared_frame_value ------------------------------- *)
+(* The frame table (FrameLUT) has one row per frame with the ImageOrientationPatient, the PixelSpacing and -
+   if the attribute is present - the SpacingBetweenSlices of THAT frame: a value found in the shared functional
+   groups is copied to every row, a value stored in the per-frame functional groups (PlaneOrientationSequence /
+   PixelMeasuresSequence of every frame item) is collected frame by frame.  _get_stacked_volume_geometry asks
+   _get_shared_frame_value for THE orientation, THE pixel spacing and THE spacing hint of the frames:
+   `SELECT DISTINCT <columns> FROM FrameLUT` must give exactly one row, otherwise RuntimeError
+   ('Frames do not have a consistent ...'); SQL equality of REAL columns = equality of the floats.
+   fa_sbs = None: the image has no SpacingBetweenSlices (column missing, none_if_missing=True -> None; the
+   generator produces tables in which either every frame or no frame has the attribute). *)
+Record frame_attrs := mkFA { fa_rowc : vec3; fa_colc : vec3; fa_px0 : Q; fa_px1 : Q; fa_sbs : option Q;
+                             fa_pos : vec3 }.
+Definition oq_eqb (a b : option Q) : bool :=
+  match a, b with Some x, Some y => Qeq_bool x y | None, None => true | _, _ => false end.
+Definition orient_eqb (a b : frame_attrs) : bool :=
+  veqb (fa_rowc a) (fa_rowc b) && veqb (fa_colc a) (fa_colc b).
+Definition px_eqb (a b : frame_attrs) : bool :=
+  Qeq_bool (fa_px0 a) (fa_px0 b) && Qeq_bool (fa_px1 a) (fa_px1 b).
+Definition sbs_eqb (a b : frame_attrs) : bool := oq_eqb (fa_sbs a) (fa_sbs b).
+(* the frame whose columns are the single DISTINCT row: the first one, provided all others have the same *)
+Definition shared_frame (eqb : frame_attrs -> frame_attrs -> bool) (frames : list frame_attrs)
+  : res frame_attrs :=
+  match frames with
+  | [] => Err "RuntimeError"
+  | f :: rest => if forallb (eqb f) rest then Ok f else Err "RuntimeError"
+  end.
+(* the three shared values, in the order _get_stacked_volume_geometry asks for them *)
+Record shared_t := mkShared { sh_rowc : vec3; sh_colc : vec3; sh_px0 : Q; sh_px1 : Q; sh_sbs : option Q }.
+Definition shared_attrs (frames : list frame_attrs) : res shared_t :=
+  match shared_frame orient_eqb frames with
+  | Err k => Err k
+  | Ok fo =>
+    match shared_frame px_eqb frames with
+    | Err k => Err k
+    | Ok fp =>
+      match shared_frame sbs_eqb frames with
+      | Err k => Err k
+      | Ok fs => Ok (mkShared (fa_rowc fo) (fa_colc fo) (fa_px0 fp) (fa_px1 fp) (fa_sbs fs))
+      end
+    end
+  end.
+(* get_volume_geometry of an image whose frame table is `frames`: the geometry of the positions under THE
+   orientation / spacing hint of the frames; frames without a common orientation, pixel spacing or spacing hint
+   are not a stack (RuntimeError -> None).  The shared values are returned along (in-plane axes of the geometry). *)
+Definition perframe_geometry (frames : list frame_attrs) (rtol atol : option Q) (seg : bool)
+           (om od : option bool) : res (option (geom * shared_t)) :=
+  match shared_attrs frames with
+  | Err k => if String.eqb k "RuntimeError" then Ok None else Err k
+  | Ok a =>
+      match multiframe_geometry (map fa_pos frames) (sh_rowc a) (sh_colc a) (sh_sbs a) rtol atol seg om od with
+      | Err k => Err k
+      | Ok None => Ok None
+      | Ok (Some g) => Ok (Some (g, a))
+      end
+  end.
+(* get_volume (Image / Segmentation, stacked branch) of the same object *)
+Definition perframe_volume (chans outch : list Z) (frames : list frame_attrs) (rtol atol : option Q)
+           (seg : bool) (om : option bool) : res (geom * list (list (option Z)) * shared_t) :=
+  if negb (pairs_unique (combine chans (map fa_pos frames))) then Err "RuntimeError" else
+  match shared_attrs frames with
+  | Err k => Err k
+  | Ok a =>
+      match channel_volume chans outch (map fa_pos frames) (sh_rowc a) (sh_colc a) (sh_sbs a) rtol atol seg om with
+      | Err k => Err k
+      | Ok (g, slots) => Ok (g, slots, a)
+      end
+  end.
+(* observed: geometry as before + the two in-plane axes of the affine (step between rows = column cosines x
+   PixelSpacing[0], step between columns = row cosines x PixelSpacing[1]) [+ the frame of every slice x channel] *)
+Definition vinplane (a : shared_t) : list val :=
+  [vvec (vscale (sh_px0 a) (sh_colc a)); vvec (vscale (sh_px1 a) (sh_rowc a))].
+Definition answer_pf_query chans outch frames (seg : bool) (q : mf_query) : val :=
+  match q with
+  | QGeom rtol atol om od =>
+      vres (vopt (fun r => VL (vgeom (fst r) ++ vinplane (snd r))))
+           (perframe_geometry frames rtol atol seg om od)
+  | QVol rtol atol om =>
+      vres (fun r => VL (vgeom (fst (fst r)) ++ vinplane (snd r) ++
+                         [VL (map (fun row => VL (map (vopt VZ) row)) (snd (fst r)))]))
+           (perframe_volume chans outch frames rtol atol seg om)
+  end.
+(* answers of ONE object with per-frame attributes to a list of queries *)
+Definition run_pf_history chans outch frames seg (qs : list mf_query) : val :=
+  VL (map (answer_pf_query chans outch frames seg) qs).
